@@ -6,7 +6,7 @@ import math
 
 import sympy as sp
 
-from ..astq import U, kwarg, statements
+from ..astq import Canon, U, kwarg, statements
 from ..index import AnalysisError, walk_no_nested
 from ..normalform import F, NFUnsupported, Normalizer, SymEval, equal, fold_constants, sym
 from ..selftest import V
@@ -141,10 +141,10 @@ def r3_weibull(ctx):
             ctx.check(ok, "C08.R3", mh, mh.node, f"{cname}: log-hazard = where(ind != 0, log(rho/nu~ ((x-tau)/nu~)^(rho-1)) [guarded], 0)",
                       f"{cname}: log-hazard is {got_h}; documented {ref_h}", instance=cname)
             mn = ix.method(cls, "_nll")
-            src = U(mn.node)
             rets = [st for st in statements(mn.node) if isinstance(st, ast.Return)]
-            ok = len(rets) == 1 and U(rets[0].value) in ("WeightedTensor(-1 * (log_survival + log_hazard))", "WeightedTensor(-(log_survival + log_hazard))") \
-                and "log_survival = cls.compute_log_survival(x, nu, rho, xi, tau, *params)" in src and "log_hazard = cls.compute_log_likelihood_hazard(x, nu, rho, xi, tau, *params)" in src
+            A_ = "($1, $2, $3, $4, $5, *$args)"
+            S_, H_ = "$0.compute_log_survival" + A_, "$0.compute_log_likelihood_hazard" + A_
+            ok = len(rets) == 1 and Canon(mn.node).text(rets[0].value) in {f"WeightedTensor(-1 * ({S_} + {H_}))", f"WeightedTensor(-({S_} + {H_}))", f"WeightedTensor(-1 * ({H_} + {S_}))", f"WeightedTensor(-({H_} + {S_}))"}
             ctx.check(ok, "C08.R3", mn, rets[0] if rets else mn.node, f"{cname}: nll = -(log-survival + log-hazard)", f"{cname}: nll is `{U(rets[0].value) if rets else '?'}`", instance=cname)
         except NFUnsupported as e:
             ctx.unknown("C08.R3", (DIST, cname), None, f"Weibull code outside the supported subset: {e}", construct=f"{cname} formulas")
